@@ -239,4 +239,9 @@ theorem C09_source_skeletons :
     Gen.Skel.DB_EnforceRetention = Expected.Skel.DB_EnforceRetention :=
   rfl
 
+/-- further regenerated control skeletons (see Model/ExpectedSkel.lean): Store_EnforceRetention -/
+theorem C09_source_skeletons_2 :
+    Gen.Skel.Store_EnforceRetention = Expected.Skel.Store_EnforceRetention :=
+  rfl
+
 end LiteFSVerif.C09
